@@ -7,6 +7,12 @@ BASE_OFF = ("cd /repo && env -u GIN_CONFIG_VERIF /venv/bin/python -m pytest -ra 
 
 CHECKS = {
 
+  'C13': ('model_checking',
+          'TLA+ spec GinRegister.tla (validation order of _make_configurable, method renaming, interactive mode; Predict table) model-checked with TLC; TLC behaviours replayed through the three real registration APIs; predicted observables enumerated over a shape universe',
+          'TLC explores all sequences of up to 4 registration requests with interactive-mode and lock switches and checks atomicity of rejection, the interactive-mode rule and that the mode ends with its block; behaviours are replayed into gin comparing status and registry; the transparency clauses (identity, no injection into the original, metadata, subclassing, exact instance type, pickling) are predicted by the model per (API, kind, scoped) and observed on 14 callable / class shapes.',
+          'The object-model clauses are an enumeration by the harness over a fixed shape universe, not a TLC result (stated in DESIGN.md).',
+          'DESIGN.md section 6 C13'),
+
   'C03': ('model_checking',
           'TLA+ spec GinStmt.tla (statement parser transcribed from config_parser.py: queue, lookahead, within-block flag, selector whitespace check, key splitting; token rendering of statement templates under layouts) model-checked with TLC; every TLC-built text rendered, tokenised by CPython and parsed by gin; CPython-tokenised random documents validated by TLC',
           'TLC checks for every text of up to 2-3 statements from 25 templates under every layout choice that the transcribed parser recovers exactly what the text spells (malformed selectors / statements rejected); each text is rendered with further layout freedom, its CPython token stream must equal the model\'s rendering (this binding already corrected the model twice: DEDENT placement, the // token), the real ConfigParser statement stream must equal the spelled statements and equal statements must give equal config_str across layouts; random richer documents go the other way through TLC.',
